@@ -21,7 +21,7 @@ LEVEL = "exploration"
 RULE = ("every parameter class x configuration (must_exist, valid_types of CSV and NetCDF reads, nested ListParameters, ResultParameter "
         "with/without output type and each is_fuzzy) x ~130 raw values of every kind the parser or API delivers x working directory in "
         "{None, absolute, relative, empty}; plus live contracts during random whole-model runs; distinct by (parameter config, raw value class, wd, outcome class)")
-REQUIRED_COUNTERS = ["printvars_history_rechecks", "nested_list_runs", "failed_command_rechecks", "clean_calls_judged", "contract_evaluations", "idempotence_checks", "purity_snapshots_compared", "live_double_clean_pairs", "live_argument_snapshots_compared"]
+REQUIRED_COUNTERS = ["library_parameters_checked", "printvars_history_rechecks", "nested_list_runs", "failed_command_rechecks", "clean_calls_judged", "contract_evaluations", "idempotence_checks", "purity_snapshots_compared", "live_double_clean_pairs", "live_argument_snapshots_compared"]
 ASSUMPTIONS = ["don't-care: what StringParameter makes of non-scalars, bool given to NumberParameter, ints other than 0/1 and numeric strings other than "
                "'0'/'1' given to BooleanParameter, 'nan'/'inf'/underscore literals, relative working directories", "NaN compared NaN-aware"]
 
@@ -315,6 +315,14 @@ def cases(ctx):
             if ctx.mine(idx):
                 yield {"kind": "matrix", "config": ci, "wd": wd}
             idx += 1
+    # the parameter objects the built-in libraries actually declare (their own configurations)
+    for libset in ("csv", "nc"):
+        prog_ = arr.new_program(arr.CSV_LIBS if libset == "csv" else arr.NC_LIBS)
+        for cname in sorted(prog_.command_library):
+            for pname in sorted(prog_.command_library[cname].inputs):
+                if ctx.mine(idx):
+                    yield {"kind": "matrix", "config": 0, "wd": "abs", "libparam": [libset, cname, pname]}
+                idx += 1
     rng = ctx.rng("live")
     for i in range(ctx.n(24, 800)):
         # a user command with an untyped list input, given nested lists (from a file and through the API)
@@ -384,13 +392,17 @@ def run_case(ctx, case):
     if case["kind"] == "live-nested":
         case = dict(case, model={"table": {"cols": {"X": {"data": [1, 2], "integer": True}}, "nrows": 2, "missing": None, "file": "in.csv"},
                                  "commands": [{"result": "In_X0", "cmd": "EEMSRead", "args": {"InFileName": "in.csv", "InFieldName": "X"}},
-                                              {"result": "Kept", "cmd": case["cmd"], "args": {"Anything": case["value"], "InFieldName": "In_X0"}},
+                                              {"result": "Kept", "cmd": case["cmd"], "args": dict({"Anything": case["value"], "InFieldName": "In_X0"}, **({"Metadata": []} if len(case["value"]) % 2 else {}))},
                                               {"result": "Kept2", "cmd": "Dif", "args": {"Anything": [case["value"], [case["value"]]], "A": "Kept"}}]}, libs=arr.CSV_LIBS + ("usercmds",))
         return run_live(ctx, case)
     from mpilot.exceptions import ProgramError
     from mpilot import params as P
     program, d = _world(ctx, case["wd"])
     param = configs()[case["config"]]
+    if case.get("libparam"):
+        libset, cname, pname = case["libparam"]
+        param = arr.new_program(arr.CSV_LIBS if libset == "csv" else arr.NC_LIBS).command_library[cname].inputs[pname]
+        ctx.count("library_parameters_checked")
     label = param_label(param)
     vals = pool(program, d, with_arrays=type(param) in (P.Parameter, P.DataParameter))
     twin_outcomes = None
@@ -546,6 +558,13 @@ def _plain(v):
     if isinstance(v, (list, tuple)):
         return tuple(_plain(x) for x in v)
     return v
+
+
+def _kinds(v):
+    """The sequence kinds of a nested value, outermost first ('L' list, 'T' tuple): what the command is handed is lists."""
+    if isinstance(v, (list, tuple)):
+        return ("L" if isinstance(v, list) else "T",) + tuple(k for x in v for k in _kinds(x))
+    return ()
 
 
 def run_live(ctx, case):
